@@ -13,12 +13,14 @@ import (
 	"testing"
 	"time"
 
+	"github.com/panjf2000/ants/v2"
 	"golang.org/x/sys/unix"
 	"pgregory.net/rapid"
 
 	gnet "github.com/panjf2000/gnet/v2"
 	"github.com/panjf2000/gnet/v2/internal/vshim"
 	errorx "github.com/panjf2000/gnet/v2/pkg/errors"
+	goPool "github.com/panjf2000/gnet/v2/pkg/pool/goroutine"
 	"github.com/panjf2000/gnet/v2/verifx/fx"
 	"github.com/panjf2000/gnet/v2/verifx/vstat"
 )
@@ -35,10 +37,14 @@ type caseSpec struct {
 	ShutAt    string     // open: from OnOpen; close: OnOpen answers Close, OnClose answers Shutdown
 	During    [][]string // per goroutine: calls fired right after the shutdown request
 	After     []string
+	// PoolFull: while the "running" calls are issued the process-wide worker pool that carries out
+	// registrations has no free worker: a Register/Enroll is then refused with an error - or, if it
+	// is accepted all the same, it owes its result like any other
+	PoolFull bool
 }
 
 func (c caseSpec) String() string {
-	return fmt.Sprintf("cfg: %s\n before=%v running=%v conns=%d slowClose=%v stop=%s/%s during=%v after=%v", c.Cfg, c.Before, c.Running, c.Conns, c.SlowClose, c.StopKind, c.ShutAt, c.During, c.After)
+	return fmt.Sprintf("cfg: %s\n before=%v running=%v conns=%d slowClose=%v stop=%s/%s during=%v after=%v workerPoolFullWhileRunning=%v", c.Cfg, c.Before, c.Running, c.Conns, c.SlowClose, c.StopKind, c.ShutAt, c.During, c.After, c.PoolFull)
 }
 
 var allCalls = []string{"validate", "count", "dup", "duplistener", "duplistener-wrong", "register-conn", "register-closedconn", "register-addr", "register-addr-addfail", "register-badaddr", "register-none",
@@ -76,6 +82,8 @@ func (c *cstate) OnClose(gc gnet.Conn, err error) gnet.Action {
 }
 
 type session struct {
+	poolFull, poolRefused int32
+	poolRestore           func()
 	plan           *vshim.Plan // fault shim (failing registrations)
 	cs             caseSpec
 	e              *fx.Engine
@@ -107,6 +115,10 @@ func (s *session) expect(call string, phaseAtCall, phaseAfter int32, err error, 
 		ok = errors.Is(err, errorx.ErrEmptyEngine)
 	case phaseAtCall == 1 && phaseAfter == 1:
 		ok = errors.Is(err, running) || (running == nil && err == nil)
+		if !ok && atomic.LoadInt32(&s.poolFull) == 1 && errors.Is(err, ants.ErrPoolOverload) && (strings.HasPrefix(call, "register-") || call == "loop-register" || call == "loop-enroll") {
+			ok = true // refused because no worker is free: an error, and nothing is owed
+			atomic.AddInt32(&s.poolRefused, 1)
+		}
 	case phaseAtCall == 3:
 		ok = errors.Is(err, errorx.ErrEngineInShutdown)
 	default: // issued while the shutdown was in progress: either answer
@@ -454,6 +466,33 @@ func runCase(cs caseSpec) (fails []string, infra string) {
 	}
 	atomic.StoreInt32(&s.phase, 1)
 	var wg sync.WaitGroup
+	if cs.PoolFull {
+		release := make(chan struct{})
+		busy := make(chan struct{})
+		goPool.DefaultWorkerPool.Tune(1)
+		if err := goPool.DefaultWorkerPool.Submit(func() { close(busy); <-release }); err == nil {
+			<-busy
+			atomic.StoreInt32(&s.poolFull, 1)
+		}
+		defer func() {
+			if atomic.LoadInt32(&s.poolFull) == 1 {
+				atomic.StoreInt32(&s.poolFull, 0)
+			}
+		}()
+		restore := func() {
+			close(release)
+			goPool.DefaultWorkerPool.Tune(goPool.DefaultAntsPoolSize)
+			atomic.StoreInt32(&s.poolFull, 0)
+		}
+		defer func() {
+			select {
+			case <-release:
+			default:
+				restore()
+			}
+		}()
+		s.poolRestore = restore
+	}
 	for _, calls := range cs.Running {
 		wg.Add(1)
 		go func(calls []string) {
@@ -464,6 +503,10 @@ func runCase(cs caseSpec) (fails []string, infra string) {
 		}(calls)
 	}
 	wg.Wait()
+	if s.poolRestore != nil {
+		s.poolRestore()
+		s.poolRestore = nil
+	}
 	// ---- phase 2: shutdown requested ----
 	atomic.StoreInt32(&s.phase, 2)
 	stopRes := make(chan error, 1)
@@ -576,6 +619,16 @@ func drawCase(t *rapid.T) caseSpec {
 		cs.During = append(cs.During, drawCalls(t, "during", 4, allCalls))
 	}
 	cs.After = drawCalls(t, "after", 6, allCalls)
+	if rapid.IntRange(0, 5).Draw(t, "poolFull") == 0 {
+		cs.PoolFull = true
+		for _, calls := range cs.Running {
+			for i, c := range calls {
+				if c == "register-addr-addfail" {
+					calls[i] = "register-addr" // its armed faults would wait for somebody else's registration
+				}
+			}
+		}
+	}
 	return cs
 }
 
